@@ -1,7 +1,7 @@
 """C02 - the coarse-to-fine mapping is a faithful partition into fragment copies."""
 from .. import env  # noqa
 from .. import resgen, invariants
-from ..runner import sut, expect, Fail, SutError
+from ..runner import sut, expect, Fail, SutError, note
 
 ID = 'C02'
 RULE = ('cases: (i) C01 strings (molecule x partition x rendering), (ii) multi-level strings (1-3 intermediate '
@@ -29,14 +29,19 @@ def budget(tier):
 
 
 def gen(R, tier):
-    kind = R.choice(['cut', 'cutw', 'levels', 'fragset', 'fragset', 'shared', 'multicut'])
+    kind = R.choice(['cut', 'cutw', 'levels', 'fragset', 'fragset', 'shared', 'multicut', 'explicit_h'])
     if kind == 'cutw':
         case = resgen.gen_cut_string(R, tier, weights=True)
+    elif kind == 'explicit_h':
+        from .c09 import gen_explicit_h
+        case = gen_explicit_h(R, tier)
     else:
         case = resgen.gen_resolvable(R, tier, kinds=(kind,))
     if case is not None:
         case['perm_seed'] = R.randint(0, 10 ** 6)
         case['key_style'] = R.choice(['x10', 'reverse', 'same'])
+        case['constructor'] = R.choice(['string', 'string', 'graph', 'dicts'])
+        case['features'] = sorted(set(case['features']) | {'constructor:' + case['constructor']})
     return case
 
 
@@ -50,8 +55,18 @@ def nontrivial(case):
 
 
 def resolver_for(case):
-    from cgsmiles import MoleculeResolver
-    return MoleculeResolver.from_string(case['input'], last_all_atom=case['last_all_atom'], legacy=case['legacy'])
+    """the resolver for a case through the constructor named in case['constructor'] (default: whole string)"""
+    import re
+    from cgsmiles import MoleculeResolver, read_cgsmiles
+    how = case.get('constructor', 'string')
+    aa, legacy = case['last_all_atom'], case['legacy']
+    if how == 'string':
+        return MoleculeResolver.from_string(case['input'], last_all_atom=aa, legacy=legacy)
+    blocks = re.findall(r"\{[^\}]+\}", case['input'])
+    if how == 'graph':
+        return MoleculeResolver.from_graph('.'.join(blocks[1:]), read_cgsmiles(blocks[0]), last_all_atom=aa, legacy=legacy)
+    dicts = MoleculeResolver.read_fragment_strings(blocks[1:], last_all_atom=aa)
+    return MoleculeResolver.from_fragment_dicts(blocks[0], dicts, last_all_atom=aa, legacy=legacy)
 
 
 AROMATIC_REJECT = 'Likely you are writing an aromatic molecule'
@@ -66,6 +81,7 @@ def run_steps(case, per_step):
             cg, fine = sut(r.resolve)
         except SutError as e:
             if case['kind'] == 'fragset' and e.type == 'SyntaxError' and AROMATIC_REJECT in e.msg:
+                note('ambiguous_set_rejected_as_not_kekulisable')
                 return r
             raise
         all_atom = case['last_all_atom'] and lv == r.resolutions - 1
